@@ -63,7 +63,14 @@ past 0x4300, `version=None`, an `if (cond)` with nothing after it, a short `whil
 `require` and `(`, doubled path separators and names not in normal form, backslash sequences inside require() strings, project
 folders inside the carts folder, the default (unused) sfx / music rows, source carts whose code calls require(), a missing
 include target whose name exists in the other cart format, included .lua files that are fragments, #include names with other
-extensions, Unicode normalisation (NFKC) and typographic replacements in the .p8 reader, `__slots__` on AST nodes, batch undo.
+extensions, Unicode normalisation (NFKC) and typographic replacements in the .p8 reader, `__slots__` on AST nodes, batch undo,
+block comments that contain another opener, quoted strings continued with backslash-newline, identifiers such as `include` or
+`version`, hard-linked destinations, source carts / OUT files that do not load, file names starting with `@`, warnings turned
+into errors, interlaced PNG labels, template placeholders such as `{gfx}` in code, `#include` lines inside included carts,
+included carts with multi-line tokens, helper functions named like game-loop functions (`_draw_hud`), `end;` after a game-loop
+function, load path patterns with `..`, a transforming writer run before the default writer on the same object, regions longer
+than their memory-map slot, redundant parentheses in the tree, the version byte / last row of the picture, keep-file lines with
+blanks, labels no goto refers to, API names used as field names, the escape \\255, comments before commas in luafmt.
 Look for something else, for example: a mask, shift or bit position that is off by one; signed/unsigned or 7-bit/8-bit handling;
 an inclusive/exclusive range end; integer division or rounding; the order in which two sections / options / passes are applied;
 an interaction between two command-line options or two library features that are each fine alone; a module-level table or
